@@ -16,7 +16,19 @@ def sc_model(line):
     for s in f[5:]:
         p = s.split('.')
         ob = int(p[1])
-        if p[0] in ('p', 'pm'):
+        if p[0] == 'pms':
+            d = expand(p[2])
+            pos = objs[ob]
+            out.append((o.xor(d, ks.take(pos, len(d))).hex()) or '-')
+            off = int(p[3])
+            a = off
+            for c in ([int(x) for x in p[4].split(',')] if p[4] != '-' else []):
+                if 0 < c < 7 and a % 8 and c < 8 - a % 8:
+                    cov.append('pms:short-piece-at-unaligned-address')
+                a += c
+            cov.append('pms:base%%8=%d' % (off % 8))
+            objs[ob] = pos + len(d)
+        elif p[0] in ('p', 'pm'):
             d = expand(p[2])
             pos = objs[ob]
             out.append((o.xor(d, ks.take(pos, len(d))).hex()) or '-')
